@@ -18,11 +18,13 @@
 package c18
 
 import (
+	"bufio"
 	"bytes"
 	"fmt"
 	"io"
 	"math"
 	"os"
+	"os/exec"
 	"sort"
 	"strconv"
 	"strings"
@@ -254,7 +256,10 @@ func wait(errC <-chan error) string {
 }
 
 // execCase records and replays one case with the real code and returns the lines with observations.
-func execCase(ops []string) (out []string) {
+func execCase(ops []string) []string { return execCaseOpt(ops, true) }
+
+// execCaseOpt with doReplay=false records only and reports the replay as `panic` (used after the worker died in it).
+func execCaseOpt(ops []string, doReplay bool) (out []string) {
 	var (
 		mode      string
 		recTime   bool
@@ -270,6 +275,11 @@ func execCase(ops []string) (out []string) {
 		}
 		t := strings.Fields(line)
 		if len(t) == 0 {
+			continue
+		}
+		need := map[string]int{"stream": 4, "batch": 3, "pt": 7, "b": 6}
+		if len(t) < need[t[0]] {
+			out = append(out, line)
 			continue
 		}
 		switch t[0] {
@@ -291,7 +301,8 @@ func execCase(ops []string) (out []string) {
 					recErr = true
 				}
 			}()
-			out = append(out, line)
+			// what the recorded message itself says about its group (observed, for the spec)
+			out = append(out, line+" => "+kit.Esc(string(p.GroupID()))+" "+b01(p.Dimensions().ByName)+":"+renderDims(p.Dimensions()))
 		case "b":
 			var pts []edge.BatchPointMessage
 			if t[5] != "-" {
@@ -314,10 +325,18 @@ func execCase(ops []string) (out []string) {
 					recErr = true
 				}
 			}()
-			out = append(out, line)
+			out = append(out, line+" => "+kit.Esc(string(b.GroupID()))+" "+renderDims(b.Dimensions()))
 		case "replay":
 			if recErr {
 				out = append(out, line+" => recerr 0 0")
+				continue
+			}
+			if mode == "" {
+				out = append(out, line+" => nomode")
+				continue
+			}
+			if !doReplay {
+				out = append(out, line+" => panic 0 0")
 				continue
 			}
 			clk := &recClock{zero: zero, last: "-"}
@@ -362,9 +381,121 @@ func emit(out *kit.Out, id string, lines []string) {
 
 var _ = sort.Strings
 
+// ---- worker process: a panic inside a goroutine of the real code (ReplayStreamFromIO starts its own) cannot be
+// recovered in-process; every case is therefore executed in a child `vh-c18 -worker`, and a child that dies in the
+// middle of a case yields the observation `replay => panic` for that case (the child is restarted). ----
+
+type worker struct {
+	cmd *exec.Cmd
+	in  io.WriteCloser
+	out *bufio.Reader
+}
+
+func startWorker() (*worker, error) {
+	exe, err := os.Executable()
+	if err != nil {
+		return nil, err
+	}
+	cmd := exec.Command(exe, "-worker", "1")
+	cmd.Stderr = io.Discard
+	in, err := cmd.StdinPipe()
+	if err != nil {
+		return nil, err
+	}
+	o, err := cmd.StdoutPipe()
+	if err != nil {
+		return nil, err
+	}
+	if err := cmd.Start(); err != nil {
+		return nil, err
+	}
+	return &worker{cmd: cmd, in: in, out: bufio.NewReaderSize(o, 1<<20)}, nil
+}
+
+func (w *worker) stop() {
+	w.in.Close()
+	w.cmd.Wait()
+}
+
+var theWorker *worker
+
+// runCase executes one case in the worker process.
+func runCase(ops []string) []string {
+	for attempt := 0; attempt < 2; attempt++ {
+		if theWorker == nil {
+			w, err := startWorker()
+			if err != nil {
+				return execCase(ops) // no child possible: run in-process
+			}
+			theWorker = w
+		}
+		var sb strings.Builder
+		for _, l := range ops {
+			sb.WriteString(l)
+			sb.WriteByte('\n')
+		}
+		sb.WriteString("end\n")
+		_, werr := io.WriteString(theWorker.in, sb.String())
+		var res []string
+		dead := werr != nil
+		for !dead {
+			l, err := theWorker.out.ReadString('\n')
+			if err != nil {
+				dead = true
+				break
+			}
+			l = strings.TrimRight(l, "\n")
+			if l == "end" {
+				return res
+			}
+			res = append(res, l)
+		}
+		theWorker.stop()
+		theWorker = nil
+		if werr != nil && attempt == 0 {
+			continue // the worker was already gone before this case: retry once with a fresh one
+		}
+		// the worker died while executing this case
+		return execCaseOpt(ops, false)
+	}
+	return nil
+}
+
+func workerLoop() int {
+	in := bufio.NewReaderSize(os.Stdin, 1<<20)
+	out := bufio.NewWriterSize(os.Stdout, 1<<20)
+	var cur []string
+	for {
+		l, err := in.ReadString('\n')
+		if err != nil {
+			return 0
+		}
+		l = strings.TrimRight(l, "\n")
+		if l == "end" {
+			for _, r := range execCase(cur) {
+				out.WriteString(r)
+				out.WriteByte('\n')
+			}
+			out.WriteString("end\n")
+			out.Flush()
+			cur = nil
+			continue
+		}
+		cur = append(cur, l)
+	}
+}
+
 // Run: `vh-c18 -seed S -n N [-tier thorough]` generates; `vh-c18 -ops file` re-executes the cases of a file.
 func Run(args []string) int {
 	f := kit.ParseFlags(args)
+	if f.Extra["worker"] != "" {
+		return workerLoop()
+	}
+	defer func() {
+		if theWorker != nil {
+			theWorker.stop()
+		}
+	}()
 	out := kit.NewOut()
 	defer out.Flush()
 	if f.Ops != "" {
@@ -381,7 +512,7 @@ func Run(args []string) int {
 			case len(t) == 2 && t[0] == "case":
 				id, cur = t[1], nil
 			case len(t) == 1 && t[0] == "end":
-				emit(out, id, execCase(cur))
+				emit(out, id, runCase(cur))
 				out.Flush()
 			default:
 				cur = append(cur, l)
@@ -391,7 +522,7 @@ func Run(args []string) int {
 	}
 	r := kit.NewRand(f.Seed)
 	for i := 0; i < f.N; i++ {
-		emit(out, fmt.Sprintf("g%d", i), execCase(genCase(r.Fork(), i, f.Tier)))
+		emit(out, fmt.Sprintf("g%d", i), runCase(genCase(r.Fork(), i, f.Tier)))
 		out.Flush()
 	}
 	return 0
